@@ -2,7 +2,7 @@ from common import ENUMX_ASSUME
 
 CHECK = dict(
     pkgs=["app/eth2wrap"],
-    files={"app/eth2wrap": ["zz_verif_c19_test.go", "zz_verif_c19_net_test.go"]},
+    files={"app/eth2wrap": ["zz_verif_c19_test.go", "zz_verif_c19_derived_test.go", "zz_verif_c19_net_test.go"]},
     libs=["enumx"],
     run="TestVerifC19",
     level="fault_enumeration",
